@@ -208,7 +208,8 @@ class MassMatrixAdaptor(Adaptor):
         dim = mass_matrix.shape[0]
         self._diagonal = mass_matrix.tensor.dim() == 1
         self.variance_estimator = WelfordVariance(
-            torch.zeros([dim]), torch.zeros_like(mass_matrix.tensor)
+            torch.zeros([dim], dtype=mass_matrix.tensor.dtype),
+            torch.zeros_like(mass_matrix.tensor),
         )
 
         self._regularize = regularize
@@ -221,7 +222,8 @@ class MassMatrixAdaptor(Adaptor):
         self.variance_estimator2 = None
         if self._swap_every != 0:
             self.variance_estimator2 = WelfordVariance(
-                torch.zeros([dim]), torch.zeros_like(mass_matrix.tensor)
+                torch.zeros([dim], dtype=mass_matrix.tensor.dtype),
+                torch.zeros_like(mass_matrix.tensor),
             )
         self._call_counter = 0
         self._values = deque()
